@@ -15,7 +15,7 @@ LEVEL_TEXT = ('Every residue of the reference proteins in chain context (7-resid
               'chains), every ligand template and the fragments flattened into a coordinate plane are run through the real program in '
               'default mode and with --protonate-all, in all 24 grid rotations x 2 translations, and (amino-acid inputs) with --keep-protons on '
               'the program\'s own hydrogens - complete, moved to X-ray riding distances, and with each single one of them removed; every hydrogen the program created is '
-              'checked for exactly one bonded heavy atom (and no second heavy atom within 0.9 A), the tabulated X-H length (+-0.002 A), >= 0.5 A separation from its siblings, '
+              'checked for exactly one bonded heavy atom (and no second heavy atom within its own X-H bond length), the tabulated X-H length (+-0.002 A), >= 0.5 A separation from its siblings, '
               'the complement of complete residues (His 2, Arg 5, Asn/Gln 2, Trp 1, amide 1 except Pro and N-terminus) together with '
               'the absence of the "missing atoms or failed protonation" warning, and equivariance of the hydrogen positions under the '
               'motion (+-0.002 A rounded, 1e-9 with the un-rounded seam).')
@@ -97,8 +97,8 @@ def hydrogens(mol, seam, supplied=()):
                 d = math.sqrt(sum((hs[i][k] - hs[j][k]) ** 2 for k in range(3)))
                 if d < 0.5:
                     v.append(('hydrogens-coincide', 'two H on %s are %.3f A apart' % (pkey, d)))
-    # exactly one heavy atom: a created hydrogen closer than 0.9 A (less than any X-H bond length) to a heavy atom other than its
-    # parent sits on a second heavy atom, whatever the bond lists say
+    # exactly one heavy atom: a created hydrogen closer to a heavy atom other than its parent than that element's own X-H bond length
+    # (minus 0.05 A) sits on a second heavy atom, whatever the bond lists say
     heavy_all = [b for b in conf.atoms if b.element != 'H']
     for a in conf.atoms:
         if a.element != 'H' or not a.bonded_atoms:
@@ -106,9 +106,10 @@ def hydrogens(mol, seam, supplied=()):
         for b in heavy_all:
             if b is a.bonded_atoms[0]:
                 continue
-            if abs(a.x - b.x) < 0.9 and abs(a.y - b.y) < 0.9 and abs(a.z - b.z) < 0.9:
+            lim = XH.get(b.element, 1.0) - 0.05      # closer than a bond of that element to hydrogen would be
+            if abs(a.x - b.x) < lim and abs(a.y - b.y) < lim and abs(a.z - b.z) < lim:
                 d = math.sqrt((a.x - b.x) ** 2 + (a.y - b.y) ** 2 + (a.z - b.z) ** 2)
-                if d < 0.9:
+                if d < lim:
                     v.append(('hydrogen-on-second-heavy-atom/%s' % b.element, 'H %s is %.3f A from %s' % (akey(a), d, akey(b))))
     return by_parent, rot, v
 
@@ -128,7 +129,7 @@ def complement(mol, s, warnings):
         heavy = [a for a in atoms if a.element != 'H']
         if heavy[0].type != 'atom':
             continue
-        rname = heavy[0].res_name
+        rname = ALIASES.get(heavy[0].res_name.strip(), heavy[0].res_name)
         if len(heavy) != gen.EXPECTED_ATOMS.get(rname, -1):
             stats['incomplete'] += 1
             continue
@@ -198,9 +199,44 @@ def inputs(tier):
     out.append(dict(src='corpus', d=corpus.cutout_desc('1FTJ', 'A', 42, 9.0)))
     for ion, kind, dist in (('ZN', 'HIS', 2.1), ('ZN', 'HIS', 2.3), ('CA', 'ASP', 2.4), ('ZN', 'CYS', 2.3), ('MG', 'GLN', 2.1), ('FE', 'HIS', 2.2), ('ZN', 'LYS', 2.1)):
         out.append(dict(src='corpus', d=corpus.pair_desc(kind, ion, dist, 'exposed')))
+    # residue names the parameter file under test maps onto a protein group type besides the standard ones (HID/HIE/HIP ...): a complete
+    # residue of that type's geometry under each such name
+    for alias, base in sorted(cfg_aliases().items()):
+        for key, ch in (('3SGB', 'E'), ('1HPX', 'A')):
+            try:
+                i = lib.find(key, ch, base, 0)
+            except IndexError:
+                continue
+            if i >= 3:
+                out.append(dict(src='alias', d=corpus.window_desc(key, ch, i - 3, 7), base=base, alias=alias))
+                break
     if tier == 'thorough':
         out += [dict(src='corpus', d=d) for d in corpus.whole_chains()]
         out += [dict(src='corpus', d=d) for d in corpus.cutouts('quick', radius=9.0)]
+    return out
+
+
+ALIASES = {}
+
+
+def cfg_aliases():
+    """{non-standard residue name: standard residue whose group type it is mapped to} from the shipped parameter file."""
+    import propka.lib
+    import propka.input
+    import propka.parameters
+    opts = propka.lib.loadOptions(['x.pdb'])
+    p = propka.input.read_parameter_file(opts.parameters, propka.parameters.Parameters())
+    std = {}
+    for k, t in p.protein_group_mapping.items():
+        res, _, atom = k.partition('-')
+        if res in gen.EXPECTED_ATOMS:
+            std.setdefault((atom, t), res)
+    out = {}
+    for k, t in p.protein_group_mapping.items():
+        res, _, atom = k.partition('-')
+        if res not in gen.EXPECTED_ATOMS and len(res) == 3 and (atom, t) in std:
+            out[res] = std[(atom, t)]
+    ALIASES.update(out)
     return out
 
 
@@ -225,6 +261,15 @@ def build(case, seed):
             if a.reskey == mid:
                 a.rec = 'HETATM'
                 a.resname = 'MSX'
+        return s
+    if case['src'] == 'alias':
+        s = corpus.build(case['d'], seed)
+        keys = list(s.residues().keys())
+        mid = keys[3][:3]
+        for a in s.atoms:
+            if a.reskey == mid and a.resname.strip() == case['base']:
+                a.resname = case['alias']
+        ALIASES[case['alias']] = case['base']
         return s
     if case['src'] == 'ligand':
         return gen.ligand(case['name'], 'L', 1, origin=(10000, 10000, 10000)).translate(gen.seed_offset(seed))
@@ -263,7 +308,7 @@ def run_case(case, ctx, acc):
                         done.add(ck)
                         acc.viols.append(Viol(sub, 'hydrogens', ck, what, inputs=dict(pdb=text0, opts=list(opts))))
                 # the program's own hydrogens written back with one of them missing, --keep-protons: the builder completes the set
-                if mode == 'default' and not unrounded and c07.amino_only(s) and case['src'] in ('corpus', 'flat'):
+                if mode == 'default' and not unrounded and c07.amino_only(s) and case['src'] in ('corpus', 'flat', 'alias'):
                     fed = c07.hydrogens_fed_back(s, m0)
                     hidx = [] if fed is None else [i for i, it in enumerate(fed) if not isinstance(it, str) and it.element == 'H']
                     riding = None
@@ -298,7 +343,7 @@ def run_case(case, ctx, acc):
                                 donek.add(ck)
                                 acc.viols.append(Viol(subk, 'hydrogens', ck, what, inputs=dict(pdb=gen.to_text(items), opts=['--keep-protons'])))
                 # equivariance
-                small = case['src'] != 'corpus'
+                small = case['src'] not in ('corpus', 'alias')
                 rots = range(24) if (small or ctx.tier == 'thorough') else (0, 3, 7, 13, 18, 22)
                 tol = 1e-9 if unrounded else 0.002
                 for ri in rots:
